@@ -81,7 +81,7 @@ def gen_universe(seed, u):
         if k == 1:
             spec = near_copy(rng.fork('copy'), base)
         else:
-            spec = modelgen.gen_spec(rng.fork('spec', k), want_mc=(k == 0) or None)
+            spec = modelgen.with_generator_local_names(Rng(rng.state, 'locals', k), modelgen.gen_spec(rng.fork('spec', k), want_mc=(k == 0) or None))
         if k == 0:
             base = spec
         text = orjson.dumps(modelgen.to_json_ast(spec, rng.fork('json', k))).decode('utf-8')
